@@ -37,7 +37,7 @@ EPM_CTX = None
 
 def plan(tier, seed):
     specs = []
-    replies = ["bind_ack_small", "bind_ack_big", "alter_context_resp", "response_0", "response_1", "response_100", "fault"]
+    replies = ["bind_ack_small", "bind_ack_big", "alter_context_resp", "response_0", "response_1", "response_100", "fault", "sealed_response_40"]
     for r in replies:
         for client in ("sync", "async"):
             specs.append({"name": f"{r}-{client}", "kind": "small", "reply": r, "client": client})
@@ -66,6 +66,21 @@ def build_reply(name: str) -> bytes:
     if name.startswith("response_"):
         n = int(name.split("_")[1])
         return rrpc.encode(dict(ptype=rrpc.RESPONSE, flags=FL, call_id=1, auth=None, alloc_hint=n, ctx_id=0, cancel_count=0, stub=bytes((i * 7 + 3) & 0xFF for i in range(n))))
+    if name.startswith("sealed_response_"):
+        # a PKT_PRIVACY response sealed by the peer of the ScriptedContext (sequence number 0), header signing on
+        import struct
+
+        import spnego.iov as iov
+
+        n = int(name.rsplit("_", 1)[1])
+        stub = bytes((i * 5 + 1) & 0xFF for i in range(n))
+        padn = -len(stub) % 16
+        body = stub + b"\xbb" * padn
+        server = tr.ScriptedContext((), 0, 16)
+        header = rrpc.header(rrpc.RESPONSE, FL, 24 + len(body) + 8 + 16, 16, 1) + struct.pack("<IHBB", len(body), 0, 0, 0)
+        trailer = struct.pack("<BBBBI", 10, 6, padn, 0, 0)
+        res = server.wrap_iov([(iov.BufferType.sign_only, header), body, (iov.BufferType.sign_only, trailer), iov.BufferType.header], encrypt=True, qop=None)
+        return header + res.buffers[1].data + trailer + res.buffers[3].data
     if name == "fault":
         return rrpc.encode(dict(ptype=rrpc.FAULT, flags=FL, call_id=1, auth=None, alloc_hint=0, ctx_id=0, cancel_count=0, fault_flags=0, status=0x1C010003, stub=b""))
     raise ValueError(name)
@@ -77,8 +92,9 @@ class Scenario:
     def __init__(self, reply_name: str):
         self.name = reply_name
         self.reply = build_reply(reply_name)
-        self.auth = reply_name in ("bind_ack_big", "alter_context_resp")
-        self.phase = {"bind_ack_small": 0, "bind_ack_big": 0, "alter_context_resp": 1}.get(reply_name, 1)
+        self.auth = reply_name in ("bind_ack_big", "alter_context_resp") or reply_name.startswith("sealed_response")
+        self.sealed = reply_name.startswith("sealed_response")
+        self.phase = {"bind_ack_small": 0, "bind_ack_big": 0, "alter_context_resp": 1}.get(reply_name, 2 if self.sealed else 1)
         self.plain_ack = build_reply("bind_ack_small")
         self.auth_ack = build_reply("bind_ack_big")
 
@@ -93,6 +109,7 @@ class Scenario:
         from dpapi_ng._rpc import _auth
 
         legs = (b"C1",) if self.name == "bind_ack_big" else (b"C1", b"C2")
+        self.alter_resp = build_reply("alter_context_resp")
         with tr.patched_spnego_client(lambda *a, **k: tr.ScriptedContext(legs, len(legs))):
             return _auth.AuthenticationProvider("u", "p", "h", "ntlm")
 
@@ -109,6 +126,8 @@ class Scenario:
                 return target
             if i == 0:
                 return [self.auth_ack if self.auth else self.plain_ack]
+            if i == 1 and self.sealed:
+                return [build_reply("alter_context_resp")]
             return []
 
         h.last = False
@@ -120,7 +139,10 @@ class Scenario:
         sock = tr.FakeSocket(self.handler(chunks))
         client = rc.SyncRpcClient(sock, self.make_auth())
         try:
-            if self.phase == 0 or self.auth:
+            if self.sealed:
+                client.bind(self.contexts())
+                res = client.request(0, 0, b"REQ-SEALED")
+            elif self.phase == 0 or self.auth:
                 res = client.bind(self.contexts())
                 if self.name == "alter_context_resp":
                     res = ("bound", client._sign_header if hasattr(client, "_sign_header") else None)
@@ -140,7 +162,10 @@ class Scenario:
         reader = CountingReader(stream)
         client = rc.AsyncRpcClient(reader, stream.writer, self.make_auth())
         try:
-            if self.phase == 0 or self.auth:
+            if self.sealed:
+                await client.bind(self.contexts())
+                res = await client.request(0, 0, b"REQ-SEALED")
+            elif self.phase == 0 or self.auth:
                 res = await client.bind(self.contexts())
                 if self.name == "alter_context_resp":
                     res = ("bound", getattr(client, "_sign_header", None))
@@ -300,7 +325,7 @@ def run_large(spec, rec: Recorder):
 
 def run_random(spec, rec: Recorder):
     rng = common.rng_for(ID, spec)
-    names = ["bind_ack_small", "bind_ack_big", "alter_context_resp", "response_0", "response_1", "response_100", "response_5000", "fault"]
+    names = ["bind_ack_small", "bind_ack_big", "alter_context_resp", "response_0", "response_1", "response_100", "response_5000", "fault", "sealed_response_40"]
     drivers = {}
     try:
         for i in range(spec["n"]):
